@@ -36,6 +36,27 @@ def classify(prop, codemod, before, after1, after2):
                         return "kf_lazy_logging_quote"
         except Exception:
             pass
+    if prop == "C01" and name == "remove-debug-breakpoint":
+        # the removed call is the ONLY statement of its block and carries a trailing comment on its line
+        import ast
+        try:
+            src_lines = before.splitlines()
+            for n in ast.walk(ast.parse(before)):
+                for field in ("body", "orelse", "finalbody"):
+                    blk = getattr(n, field, None)
+                    if isinstance(blk, list) and len(blk) == 1 and isinstance(blk[0], ast.Expr) and isinstance(blk[0].value, ast.Call) \
+                            and not isinstance(n, ast.Module):
+                        st = blk[0]
+                        if "#" in src_lines[st.end_lineno - 1][st.end_col_offset:]:
+                            return "kf_remove_breakpoint_sole_stmt_trailing_comment"
+                for h in getattr(n, "handlers", []) or []:
+                    blk = h.body
+                    if len(blk) == 1 and isinstance(blk[0], ast.Expr) and isinstance(blk[0].value, ast.Call):
+                        st = blk[0]
+                        if "#" in src_lines[st.end_lineno - 1][st.end_col_offset:]:
+                            return "kf_remove_breakpoint_sole_stmt_trailing_comment"
+        except SyntaxError:
+            pass
     if prop == "C01" and name == "use-walrus-if":
         import ast
         try:
